@@ -42,14 +42,66 @@ fn vk_valid(f: [FiniteF64; 10]) -> bool {
     total.abs() < VK_LIMIT_NS
 }
 
-// bounded: the code iterates over its 10 fields (Vec + for loop); unwind 11 with unwinding assertions on, hence complete
+/// exactly representable integer field: |v| <= 2^53, handed to the code as the double of the same value
+fn vk_i53() -> (FiniteF64, i128) {
+    let v: i64 = kani::any();
+    kani::assume(v >= -9_007_199_254_740_992 && v <= 9_007_199_254_740_992);
+    (FiniteF64(v as f64), v as i128)
+}
+fn vk_valid_int(f: [i128; 10]) -> bool {
+    let mut pos = false;
+    let mut neg = false;
+    let mut k = 0;
+    while k < 10 { if f[k] > 0 { pos = true; } if f[k] < 0 { neg = true; } k += 1; }
+    if pos && neg { return false; }
+    if f[0].abs() >= 4_294_967_296 || f[1].abs() >= 4_294_967_296 || f[2].abs() >= 4_294_967_296 { return false; }
+    let total = (((f[3] * 24 + f[4]) * 60 + f[5]) * 60 + f[6]) * 1_000_000_000 + f[7] * 1_000_000 + f[8] * 1_000 + f[9];
+    total.abs() < VK_LIMIT_NS
+}
+
+// bounded: date fields only (time fields zero), |field| <= 2^53; the code's loop over its 10 fields is unwound 11 times with unwinding assertions on
 #[kani::proof]
 #[kani::unwind(11)]
-fn c09_is_valid_duration() {
-    let f = [vk_f(), vk_f(), vk_f(), vk_f(), vk_f(), vk_f(), vk_f(), vk_f(), vk_f(), vk_f()];
+fn c09_is_valid_duration_date_fields() {
+    let (y, iy) = vk_i53();
+    let (m, im) = vk_i53();
+    let (w, iw) = vk_i53();
+    let (d, id) = vk_i53();
+    let z = FiniteF64::default();
     kani::cover!(true);
-    let got = is_valid_duration(f[0], f[1], f[2], f[3], f[4], f[5], f[6], f[7], f[8], f[9]);
-    assert!(got == vk_valid(f));
+    let got = is_valid_duration(y, m, w, d, z, z, z, z, z, z);
+    assert!(got == vk_valid_int([iy, im, iw, id, 0, 0, 0, 0, 0, 0]));
+}
+
+// bounded: time fields only (date fields zero), |field| <= 2^53, unwind 11 with unwinding assertions on
+#[kani::proof]
+#[kani::unwind(11)]
+fn c09_is_valid_duration_time_fields() {
+    let (h, ih) = vk_i53();
+    let (mi, imi) = vk_i53();
+    let (s, is) = vk_i53();
+    let (ms, ims) = vk_i53();
+    let (us, ius) = vk_i53();
+    let (ns, ins) = vk_i53();
+    let z = FiniteF64::default();
+    kani::cover!(true);
+    let got = is_valid_duration(z, z, z, z, h, mi, s, ms, us, ns);
+    assert!(got == vk_valid_int([0, 0, 0, 0, ih, imi, is, ims, ius, ins]));
+}
+
+/// a single huge finite field (up to f64::MAX) is rejected without overflow or panic
+// bounded: one non-zero field per run (index symbolic), unwind 11 with unwinding assertions on
+#[kani::proof]
+#[kani::unwind(11)]
+fn c09_is_valid_duration_huge_field() {
+    let x: f64 = kani::any();
+    kani::assume(x.is_finite() && x.abs() >= 1.0e25);
+    let k: u8 = kani::any();
+    kani::assume(k < 10);
+    let z = FiniteF64::default();
+    let mut f = [z; 10];
+    f[k as usize] = FiniteF64(x);
+    assert!(!is_valid_duration(f[0], f[1], f[2], f[3], f[4], f[5], f[6], f[7], f[8], f[9]));
 }
 
 /// NormalizeTimeDuration, one field at a time: a duration whose only non-zero field is an arbitrary integral double
@@ -80,7 +132,7 @@ fn c06_from_time_duration_us() {
 #[kani::proof]
 fn c06_from_time_duration_hours() {
     let x: f64 = kani::any();
-    kani::assume(x.is_finite() && x == x.trunc() && x.abs() < 2.6e12);
+    kani::assume(x.is_finite() && x == x.trunc() && x.abs() < 2.5e12);
     let z = FiniteF64::default();
     let t = TimeDuration::new_unchecked(FiniteF64(x), z, z, z, z, z);
     let norm = NormalizedTimeDuration::from_time_duration(&t);
